@@ -10,7 +10,7 @@ def _strip_hash(T):
 
 
 # --------------------------------------------------------------------------------------------- C05
-def c05_cross_engine(tier, seed, profiles=("core", "actions", "history", "done", "select", "parallways"), n=80):
+def c05_cross_engine(tier, seed, profiles=("core", "actions", "history", "done", "select", "parallways", "probe"), n=80):
     scale = 6 if tier == "thorough" else 1
     fails, samples = [], []
     evals = nontrivial = 0
